@@ -91,7 +91,12 @@ def build(case):
     def boom():
         secret_local = case['nasty']
         raise ValueError(case['nasty'])
-    return Application([('/raise', raiser), ('/return', returner), ('/reused', reused), ('/boom', boom)], debug=debug)
+    def boomexec():
+        # the failing frame has no source text (code made by exec, a generated __init__, a frozen module)
+        ns = {}
+        exec('def generated(msg):\n    local_copy = msg\n    raise ValueError(msg)\n', ns)
+        return ns['generated'](case['nasty'])
+    return Application([('/raise', raiser), ('/return', returner), ('/reused', reused), ('/boom', boom), ('/boomexec', boomexec)], debug=debug)
 
 
 def impl(case):
@@ -168,7 +173,7 @@ def oracle(case, obs):
         if o['exc']:
             return ('%s: %s escaped' % (what, o['exc']), 'escape')
         kind = rq['path'].split('/')[1]
-        want_status = exp['code'] if kind in ('raise', 'return', 'reused') else (500 if kind == 'boom' else 404)
+        want_status = exp['code'] if kind in ('raise', 'return', 'reused') else (500 if kind in ('boom', 'boomexec') else 404)
         if o['status'] != want_status:
             return ('%s: status %s, expected %s' % (what, o['status'], want_status), 'status')
         ctype = (o['ctype'] or '').split(';')[0].strip()
@@ -198,6 +203,18 @@ def oracle(case, obs):
                 sk = html_skeleton(body)
             except Exception as e:
                 return ('%s: HTML body does not tokenize: %s' % (what, e), 'html')
+            # container elements open and close in pairs, properly nested (pages of both handlers)
+            stack, paired = [], ('html', 'head', 'body', 'div', 'span', 'table', 'tr', 'td', 'th', 'ul', 'ol', 'pre', 'textarea', 'form', 'h1', 'h2',
+                                 'h3', 'title', 'style', 'script', 'a', 'code', 'button', 'label', 'select', 'thead', 'tbody')
+            for t in sk:
+                if t[0] == 'start' and t[1] in paired:
+                    stack.append(t[1])
+                elif t[0] == 'end' and t[1] in paired:
+                    if not stack or stack[-1] != t[1]:
+                        return ('%s: HTML is not well formed: </%s> closes %s' % (what, t[1], ('<%s>' % stack[-1]) if stack else 'nothing'), 'html-nesting')
+                    stack.pop()
+            if stack:
+                return ('%s: HTML is not well formed: never closed: %s' % (what, stack[-6:]), 'html-nesting')
             if case['handler'] == 'default' and kind in ('raise', 'return', 'reused') and not case['cls'].startswith('Contextual'):
                 want = [['decl'], ['start', 'html', []], ['start', 'head', []], ['start', 'title', []], ['end', 'title'], ['end', 'head'],
                         ['start', 'body', []], ['start', 'h1', []], ['end', 'h1']]
@@ -236,7 +253,7 @@ def gen_case(rng, tier, classes):
         fields['code'] = rng.choice([418, 499, 599, 400])
     reqs = []
     for _ in range(6 if tier == 'quick' else 16):
-        kind = rng.choice(['raise', 'return', 'raise', 'boom', 'missing', 'reused'])
+        kind = rng.choice(['raise', 'return', 'raise', 'boom', 'missing', 'reused', 'boomexec'])
         path = '/' + kind if kind != 'missing' else '/nf/' + rng.choice(['<script>XSS1</script>', 'a"b', "x'y", 'plain', '<!-- XSS6 -->'])
         reqs.append({'path': path, 'accept': rng.choice(ACCEPTS), 'upload': rng.random() < 0.25})
     response_kw = rng.choice([None, None, None, {'content_type': 'application/json'}, {'mimetype': 'application/json'},
